@@ -58,8 +58,10 @@ func TestVerifC35ServerChild(t *testing.T) {
 	if portFile == "" {
 		t.Skip("server child: started by TestVerifC35Server only")
 	}
-	// a statement is at most a few KiB here; the default limit of 1 GiB would only make a runaway recursion slow to end
-	debug.SetMaxStack(256 << 20)
+	// a statement is at most a few KiB here (200 nested EXPLAINs need well under 1 MiB of stack, race detector included); with
+	// the default limit of 1 GiB a runaway recursion ends the process just the same, but only after minutes of stack copying
+	// and scanning, longer than this leg's socket watchdogs
+	debug.SetMaxStack(c35MaxStack)
 	cfg := config.Config{}
 	cfg.Server.ServerVersion = "15.0"
 	cfg.Server.ClientEncoding = "UTF8"
@@ -198,6 +200,8 @@ type c35Client struct {
 	fe   *pgproto3.Frontend
 }
 
+const c35MaxStack = 16 << 20
+
 const c35IO = 30 * time.Second // watchdog on socket I/O; expiry is never a verdict by itself
 
 func c35Dial(addr string) (*c35Client, error) {
@@ -307,7 +311,7 @@ func TestVerifC35ClassifyChild(t *testing.T) {
 	if in == "" {
 		t.Skip("classification child: started by TestVerifC35Server only")
 	}
-	debug.SetMaxStack(256 << 20)
+	debug.SetMaxStack(c35MaxStack)
 	raw, err := os.ReadFile(in)
 	if err != nil {
 		t.Fatal(err)
@@ -400,15 +404,23 @@ func c35DownClass(dir, q string) (string, string) {
 	if i := strings.IndexByte(text, 0); i >= 0 {
 		text = text[:i] // the wire format ends the query at the first NUL
 	}
+	// the text as sent first: if the process does not survive it, nothing else needs to be asked
+	o := c35ParseOutcomes(dir, []string{text})
+	if strings.HasPrefix(o[0], "death:") {
+		return "server_down_parse_process_death_" + strings.TrimPrefix(o[0], "death:"), o[0]
+	}
 	st := c35Stable(text)
-	o := c35ParseOutcomes(dir, []string{text, strings.TrimSpace(text), st})
+	o = append(o, c35ParseOutcomes(dir, []string{strings.TrimSpace(text), st})...)
 	alone := o[0]
 	if alone == "" {
 		alone = o[1]
 	}
-	for _, x := range o[:2] {
-		if strings.HasPrefix(x, "death:") {
-			return "server_down_parse_process_death_" + strings.TrimPrefix(x, "death:"), x
+	if strings.HasPrefix(o[1], "death:") {
+		return "server_down_parse_process_death_" + strings.TrimPrefix(o[1], "death:"), o[1]
+	}
+	for _, x := range o {
+		if strings.HasPrefix(x, "unknown:") {
+			return "server_down_unclassified", x
 		}
 	}
 	if o[0] == "" && o[1] == "" {
@@ -545,6 +557,13 @@ func TestVerifC35Server(t *testing.T) {
 			answer, sendErr = at.extended(text)
 		}
 		at.conn.Close()
+		var ne net.Error
+		if sendErr != nil && errors.As(sendErr, &ne) && ne.Timeout() {
+			// no answer within the socket watchdog: the handler is still busy with the text. If it is on its way to a fatal
+			// error the process ends soon; give it time (watchdog only) so that the death is attributed to this text
+			r.Count("attacker_timeouts", 1)
+			child.dead(120 * time.Second)
+		}
 		if sendErr != nil && child.dying(1500*time.Millisecond) {
 			// the attacker lost its connection and the process shows signs of going down: let it finish
 			// (watchdog only; the verdict below is taken from what the bystander then observes)
